@@ -255,7 +255,11 @@ DecodeClauses(e) ==
 
 ObserveClauses(e) ==
   (* C16: the message is what the spec says it is - scribbling on buffers changed no object *)
-  IF P("C16") /\ e.o \in DOMAIN held /\ e.vpost # held[e.o] THEN {<<"C16.message-changed", "none">>} ELSE {}
+  (IF P("C16") /\ e.o \in DOMAIN held /\ e.vpost # held[e.o] THEN {<<"C16.message-changed", "none">>} ELSE {})
+  \cup
+  (* C01: the message a decode yielded is still that message when the application looks at it after *)
+  (* its receive buffer went back to the pool (a round trip whose result does not last is none)     *)
+  (IF Prop = "C01" /\ e.tag = "kept" /\ e.o \in DOMAIN held /\ e.vpost # held[e.o] THEN {<<"C01.roundtrip-kept", "none">>} ELSE {})
 
 PeekClauses(e) ==
   (* C16 / C06: the buffer is what the spec says it is - mutating objects changed no bytes *)
